@@ -137,4 +137,8 @@ CLAUSES = [
     Clause("isomorphic1", cases, make_run("dfa_isomorphic1"), quick=1200, thorough=10000, exhaustive=ex, rule="dfa_isomorphic1: " + RULE),
     Clause("isomorphic", cases, make_run("dfa_isomorphic"), quick=1200, thorough=10000, exhaustive=ex, rule="dfa_isomorphic: " + RULE),
 ]
+from props import workbench as WB   # noqa: E402
+
+CLAUSES.append(Clause("object_history", lambda tier: WB.fa_programs(tier, "iso"), WB.run_fa, quick=500, thorough=5000,
+                      rule="(both isomorphism tests on pairs of DFA objects with a history: compared, modified in place, compared again) " + WB.FA_RULE))
 KNOWN_PREDICATES = {}
